@@ -36,9 +36,10 @@ try:
             ev = json.load(open("/verif/evidence/%s.json" % c))
             keys = ev["coverage"]["finding_keys_new"]
             wall = ev["wall_s"]
+            exhaustive = ev["coverage"]["exhaustive"]
         except Exception as e:
-            wall = None
-        out[c] = {"exit": r.returncode, "new_keys": keys[:8], "n_keys": len(keys), "wall": wall, "err": r.stderr[-300:] if r.returncode not in (0, 1) else ""}
+            wall = exhaustive = None
+        out[c] = {"exit": r.returncode, "new_keys": keys[:8], "n_keys": len(keys), "wall": wall, "exhaustive": exhaustive, "err": r.stderr[-300:] if r.returncode not in (0, 1) else ""}
 finally:
     sh("git -C /repo worktree remove --force %s" % wt)
     shutil.rmtree(wt, ignore_errors=True)
